@@ -11,7 +11,9 @@ let obs fmt = Printf.printf ("< " ^^ fmt ^^ "\n")
 let files : (string, handle option) Hashtbl.t = Hashtbl.create 8
 let snaps : (string, (arc list * bool) option) Hashtbl.t = Hashtbl.create 8
 let clock : z ref = ref Z0        (* whispertool.Now as replaced by setclock *)
-let reset_case () = Hashtbl.reset files; Hashtbl.reset snaps; clock := Z0
+let clock_step : z ref = ref Z0   (* each call that reads the clock reads it once; the next call sees clock + step *)
+let tick () = clock := Z.add !clock !clock_step
+let reset_case () = Hashtbl.reset files; Hashtbl.reset snaps; clock := Z0; clock_step := Z0
 let get_file name = try Hashtbl.find files name with Not_found -> None
 let set_file name h = Hashtbl.replace files name h
 let take_snap name = match (try Hashtbl.find files name with Not_found -> None) with
@@ -75,34 +77,39 @@ let () =
     | [_; name; v] -> with_file "setmaxret" name (fun h -> set_file name (Some { h with hd_maxret = zi v }); obs "setmaxret ok")
     | _ -> failwith "setmaxret");
   register "setclock" (fun tk -> match tk with
-    | [_; t] -> clock := zi t; obs "setclock ok"
+    | [_; t] -> clock := zi t; clock_step := Z0; obs "setclock ok"
+    | [_; t; st] -> clock := zi t; clock_step := zi st; obs "setclock ok"
     | _ -> failwith "setclock");
   register "wupd" (fun tk -> match tk with
     | [_; name; t; v] -> with_file "wupd" name (fun h ->
         let (h', o) = w_update flocq_fops !clock h (zi t) (z_of_hex v) in
-        set_file name (Some h'); obs "wupd %s" (show_uout o))
+        tick (); set_file name (Some h'); obs "wupd %s" (show_uout o))
     | _ -> failwith "wupd");
   register "wmany" (fun tk -> match tk with
     | _ :: name :: _n :: rest -> with_file "wmany" name (fun h ->
         let (h', o) = w_update_many flocq_fops !clock h (parse_points rest) in
-        set_file name (Some h'); obs "wmany %s" (show_uout o))
+        tick (); set_file name (Some h'); obs "wmany %s" (show_uout o))
     | _ -> failwith "wmany");
   register "wfetch" (fun tk -> match tk with
-    | [_; name; f; u] -> with_file "wfetch" name (fun h -> obs "wfetch %s" (show_fetch (w_fetch !clock h (zi f) (zi u))))
+    | [_; name; f; u] -> with_file "wfetch" name (fun h -> let r = w_fetch !clock h (zi f) (zi u) in tick (); obs "wfetch %s" (show_fetch r))
     | _ -> failwith "wfetch");
   register "upd" (fun tk -> match tk with
     | [_; name; id; t; v; now] -> with_file "upd" name (fun h ->
         let (h', o) = h_update_clock flocq_fops !clock h (zi id) (zi t) (z_of_hex v) (zi now) in
+        if now = "0" then tick ();
         set_file name (Some h'); obs "upd %s" (show_uout o))
     | _ -> failwith "upd");
   register "many" (fun tk -> match tk with
     | _ :: name :: id :: now :: _n :: rest -> with_file "many" name (fun h ->
         let (h', o) = h_update_many_clock flocq_fops !clock h (parse_points rest) (zi id) (zi now) in
+        if now = "0" then tick ();
         set_file name (Some h'); obs "many %s" (show_uout o))
     | _ -> failwith "many");
   register "fetch" (fun tk -> match tk with
     | [_; name; id; f; u; now] -> with_file "fetch" name (fun h ->
-        obs "fetch %s" (show_fetch (h_fetch_clock !clock h (zi id) (zi f) (zi u) (zi now))))
+        let r = h_fetch_clock !clock h (zi id) (zi f) (zi u) (zi now) in
+        if now = "0" then tick ();
+        obs "fetch %s" (show_fetch r))
     | _ -> failwith "fetch");
   register "fetchk" (fun tk -> match tk with
     | [_; name; id; f; u; now] -> with_file "fetchk" name (fun h ->
